@@ -948,7 +948,12 @@ def _oracle_check(sample, edges, srep, erep, dev, n, cleaned, R, N, srt, leading
                                  dNchdetaMin_=[repr(m) for m in obj.dNchdetaMin_]))
 
         def stored(obj_):
-            return ([None if is_inf(m) else exact(m) for m in obj_.dNchdetaMin_], [exact(m) for m in obj_.dNchdetaMax_])
+            # (inf marks an empty class; a NaN is kept as such: the statement speaks of non-empty classes only)
+            def one(m):
+                if isinstance(m, (float, np.floating)) and m != m:
+                    return "nan"
+                return None if is_inf(m) else exact(m)
+            return ([one(m) for m in obj_.dNchdetaMin_], [one(m) for m in obj_.dNchdetaMax_])
         smin, smax = stored(obj)
         for i in range(N):
             if R[i] < R[i + 1]:
